@@ -12,6 +12,7 @@ import (
 	"flag"
 	"fmt"
 	"hash/crc32"
+	"math/rand"
 	"sort"
 	"strings"
 	"sync"
@@ -46,6 +47,10 @@ type rcommit struct {
 	pos     int64
 	meta    []byte
 	written int64
+	// power loss at the moment of this Commit (gofs dirty-page tracking): lowest global position of a byte that was
+	// written but not fsync'ed (-1: none) and the image with those ranges garbled
+	dirtyAt int64
+	crash   []nfile
 }
 type engine struct {
 	mu      sync.Mutex
@@ -55,6 +60,7 @@ type engine struct {
 	ready   chan struct{}
 	once    sync.Once
 	fs      gofs.FS
+	track   *gofs.InMemoryFS // dirty-page tracking on: simulate loss of un-fsync'ed ranges at every Commit
 	cond    *sync.Cond
 }
 
@@ -97,8 +103,31 @@ func (e *engine) Commit(off int64, meta []byte, safe int64) error {
 	if e.fs != nil {
 		written = totalBytes(e.fs)
 	}
+	rc := rcommit{pos: off, meta: append([]byte(nil), meta...), written: written, dirtyAt: -1}
+	if e.track != nil {
+		// Commit is called by the writer goroutine, nothing writes to the files meanwhile.  Garble one byte in every
+		// range that was written but not fsync'ed (that is all gofs offers), record what changed, and undo it.
+		before := listFiles(e.track)
+		e.track.CorruptDirtyPages(rand.New(rand.NewSource(1)))
+		after := listFiles2(e.track, before)
+		for fi := range before {
+			for i := range before[fi].data {
+				if i < len(after[fi].data) && before[fi].data[i] != after[fi].data[i] {
+					if g := before[fi].start + int64(i); rc.dirtyAt < 0 || g < rc.dirtyAt {
+						rc.dirtyAt = g
+					}
+					for k := 0; k < 255; k++ { // buff[i]++ 255 more times restores the byte
+						_ = e.track.CorruptFile(before[fi].name, int64(i))
+					}
+				}
+			}
+		}
+		if rc.dirtyAt >= 0 {
+			rc.crash = after
+		}
+	}
 	e.mu.Lock()
-	e.commits = append(e.commits, rcommit{pos: off, meta: append([]byte(nil), meta...), written: written})
+	e.commits = append(e.commits, rc)
 	e.mu.Unlock()
 	e.cond.Broadcast()
 	return nil
@@ -148,6 +177,18 @@ func listFiles(fs gofs.FS) []nfile {
 		out = append(out, f)
 	}
 	sort.SliceStable(out, func(i, j int) bool { return out[i].start < out[j].start })
+	return out
+}
+// listFiles2 re-reads the files of a previous listing (same order, same start positions).
+func listFiles2(fs gofs.FS, ref []nfile) []nfile {
+	out := make([]nfile, len(ref))
+	for i, f := range ref {
+		d, err := fs.ReadFile(f.name)
+		if err != nil {
+			panic(err)
+		}
+		out[i] = nfile{name: f.name, start: f.start, data: d}
+	}
 	return out
 }
 func totalBytes(fs gofs.FS) int64 {
@@ -465,6 +506,7 @@ func runHistory(r *vu.Rng, o *vu.Out, hid int, big bool, nflips int, bigNo int) 
 
 	// ---- run the real writer
 	fs := gofs.NewThreadSafeMemoryFs()
+	fs.TrackDirtyPages()
 	_ = fs.TempDir()
 	zero := time.Duration(0)
 	opts := fsbinlog.Options{PrefixPath: prefix, Magic: schemaMagic, Fs: fs, MaxChunkSize: chunk, WriteCallDelay: &zero}
@@ -473,6 +515,7 @@ func runHistory(r *vu.Rng, o *vu.Out, hid int, big bool, nflips int, bigNo int) 
 	}
 	bl, _ := fsbinlog.NewFsBinlog(nil, opts)
 	eng := newEngine(0, fs)
+	eng.track = fs
 	done := make(chan error, 1)
 	go func() { done <- bl.Run(0, nil, nil, eng) }()
 	<-eng.ready
@@ -666,6 +709,27 @@ func runHistory(r *vu.Rng, o *vu.Out, hid int, big bool, nflips int, bigNo int) 
 		rps = append(rps, fmt.Sprintf("RP %s %s %s [%s] [%s] %d %s %d", m.coq(), vu.Z(from), ms, strings.Join(evs, ";"), strings.Join(cs, ";"), ob.err, vu.Z(ob.pos), ob.crc))
 	}
 
+	// ---- oracle: a Commit covers only fsync'ed bytes: power loss at the moment of any Commit(offset) (all written but
+	// un-fsync'ed ranges garbled) must leave everything below the committed offset replayable
+	for _, c := range wcommits {
+		if c.dirtyAt < 0 {
+			continue
+		}
+		o.Hist["commits_with_unsynced_ranges"]++
+		ob := replay(c.crash, 0, nil)
+		hi := 0
+		for hi < len(expected) && expected[hi].end <= c.pos {
+			hi++
+		}
+		a := applies(ob)
+		okPrefix := len(a) >= hi && sameEvents(a[:hi], 0, hi)
+		reachedCommit := ob.err == 0 || (len(ob.evs) > 0 && ob.evs[len(ob.evs)-1].off >= c.pos)
+		if c.dirtyAt < c.pos || !okPrefix || !reachedCommit {
+			o.Fail("commit_covers_only_fsynced_bytes", line, fmt.Sprintf("%s Commit(%d) while byte %d (and maybe more) was written but not fsync'ed; replay of the power-loss image: err=%d(%s) events=%d, %d committed", desc, c.pos, c.dirtyAt, ob.err, ob.errText, len(a), hi))
+			break
+		}
+	}
+
 	// ---- oracle: replay_exact (from 0 and from the end of the header)
 	for _, from := range []int64{0, hdrLen} {
 		ob := replay(files, from, nil)
@@ -800,6 +864,84 @@ func runHistory(r *vu.Rng, o *vu.Out, hid int, big bool, nflips int, bigNo int) 
 		}
 	}
 
+	// ---- oracle: reopen after truncation.  The log is cut at k (inside the last events or the system levs after them),
+	// the binlog is started again AS A WRITING MASTER on it (replay, then append mode); either the start is refused or
+	// whatever is appended replays exactly: the complete events before k, then the new events at the offsets Append
+	// returned, never a partial event
+	if !big && !alien {
+		lo := starts[0]
+		if len(starts) > 3 {
+			lo = starts[len(starts)-3]
+		}
+		var rk []int64
+		for k := lo; k <= total; k++ {
+			rk = append(rk, k)
+		}
+		if len(rk) > 48 { // keep the boundaries and an even sample of the rest
+			keep := map[int64]bool{total: true}
+			for _, st := range starts {
+				keep[st] = true
+			}
+			var sel []int64
+			step := len(rk)/40 + 1
+			off0 := r.Intn(step)
+			for i, k := range rk {
+				if keep[k] || (i+off0)%step == 0 {
+					sel = append(sel, k)
+				}
+			}
+			rk = sel
+		}
+		for _, k := range rk {
+			img := applyModif(files, modif{kind: 1, k: k})
+			news := [][]byte{genPayload(r, 1+r.Intn(20))}
+			if r.Chance(50) {
+				news = append(news, genPayload(r, r.Intn(70)))
+			}
+			ro := reopen(img, chunk, news)
+			if !ro.started {
+				o.Hist["reopen_refused"]++
+				continue
+			}
+			o.Hist["reopen_started"]++
+			hi := 0
+			for hi < len(expected) && expected[hi].end <= k {
+				hi++
+			}
+			bad := ro.appendErr
+			tiles := true
+			var n int64
+			for _, f := range ro.files {
+				if f.start != n {
+					tiles = false
+				}
+				n += int64(len(f.data))
+			}
+			ob := replay(ro.files, 0, nil)
+			a := applies(ob)
+			if bad == "" && (!tiles || ob.err != 0 || len(a) != hi+len(news) || !sameEvents(a[:min(hi, len(a))], 0, min(hi, len(a)))) {
+				bad = "replay differs"
+			}
+			if bad == "" {
+				at := ro.startOff
+				for i, p := range news {
+					if a[hi+i].off != at || string(a[hi+i].body) != string(p) {
+						bad = fmt.Sprintf("new event #%d delivered at %d, Append said %d", i, a[hi+i].off, at)
+						break
+					}
+					at = ro.newOffs[i]
+				}
+				if bad == "" && ob.pos != at {
+					bad = fmt.Sprintf("replay ends at %d, last Append returned %d", ob.pos, at)
+				}
+			}
+			if bad != "" {
+				o.Fail("reopen_after_truncation_never_yields_partial_event", line, fmt.Sprintf("%s trunc@%d then master restart (reader stopped at %d, %d bytes in files) + %d appends: %s; replay err=%d(%s) events=%d want %d+%d", desc, k, ro.startOff, k, len(news), bad, ob.err, ob.errText, len(a), hi, len(news)))
+				break
+			}
+		}
+	}
+
 	// ---- oracle: a flipped bit in front of a checksum record is detected when that record is reached
 	nfl := 40
 	if big {
@@ -869,6 +1011,33 @@ func runHistory(r *vu.Rng, o *vu.Out, hid int, big bool, nflips int, bigNo int) 
 				}
 			}
 			return
+		}
+		// a flipped length field can make one (damaged) event swallow the following records, the checksum record
+		// included: that record is never reached; the property then speaks about the next checksum record behind it
+		swallowEnd := int64(-1)
+		for _, e := range ob.evs {
+			if e.kind == 'A' && e.off <= g {
+				if end := e.off + pad4(int64(8+len(e.body))); (q >= 0 && e.off < q && q < end) || (qrot >= 0 && e.off < qrot && qrot < end) {
+					swallowEnd = end
+				}
+			}
+		}
+		if swallowEnd >= 0 {
+			o.Hist["flip_swallows_checksum_record"]++
+			for _, q2 := range append(append([]int64{}, crcPos...), rotToPos...) {
+				if q2 < swallowEnd {
+					continue
+				}
+				sz := int64(20)
+				if binary.LittleEndian.Uint32(stream[q2:]) == mRotTo {
+					sz = 36
+				}
+				if acc, _ := passed(q2, sz); acc {
+					o.Fail("flip_swallowing_checksum_record_detected_at_later_record", line, fmt.Sprintf("%s %s (global byte %d): a damaged event swallowed the checksum record; the later checksum record @%d was reached and accepted, err=%d(%s)", desc, m.text(), g, q2, ob.err, ob.errText))
+					break
+				}
+			}
+			q, qrot = -1, -1
 		}
 		if q >= 0 {
 			sameFile := fileOf(q) == fi
@@ -992,6 +1161,27 @@ func witnesses(o *vu.Out) {
 	} else {
 		o.Finding("F-C18a", "gone")
 	}
+	// F-C18c: chunk 0 = two events (21 and 20 bytes) + levRotateTo; bit 6 of the first length (21 -> 85) makes the
+	// damaged event swallow the rest of the chunk exactly up to its end (same input as Props/C18.v)
+	rep := func(b byte, n int) []byte {
+		p := make([]byte, n)
+		for i := range p {
+			p[i] = b
+		}
+		return p
+	}
+	files2 := writeSimple(100, [][]byte{rep(7, 21), rep(8, 20), {9, 9}, rep(5, 60)})
+	if len(files2) == 3 && len(files2[0].data) == 140 {
+		c1 := replay(applyModif(files2, modif{kind: 2, fi: 0, i: 48, b: 6}), 0, nil)
+		o.Hist[fmt.Sprintf("witness F-C18c length-flip err=%d events=%d", c1.err, napplies(c1))]++
+		if c1.err == 0 {
+			o.Finding("F-C18c", "reproduced")
+		} else {
+			o.Finding("F-C18c", "gone")
+		}
+	} else {
+		o.Finding("F-C18c", "witness-not-applicable")
+	}
 	// F-C18b: cut 10 bytes (scan error) and 2 bytes (panic) into the header of the newest chunk
 	last := files[len(files)-1].start
 	b1 := replay(applyModif(files, modif{kind: 1, k: last + 10}), 0, nil)
@@ -1003,4 +1193,68 @@ func witnesses(o *vu.Out) {
 	} else {
 		o.Finding("F-C18b", "reproduced")
 	}
+}
+
+type reopened struct {
+	started   bool
+	startErr  string
+	startOff  int64 // the engine's offset when the master became ready = where the first Append goes
+	newOffs   []int64
+	appendErr string
+	files     []nfile
+}
+
+// reopen starts the real binlog as a writing master on the given image (replay from 0, then the write loop), appends
+// the payloads if the start succeeds, shuts down and returns the resulting files.
+func reopen(img []nfile, chunk uint32, payloads [][]byte) (ro reopened) {
+	fs := gofs.NewThreadSafeMemoryFs()
+	_ = fs.TempDir()
+	for _, f := range img {
+		if err := fs.WriteFile(f.name, f.data, 0o640); err != nil {
+			panic(err)
+		}
+	}
+	zero := time.Duration(0)
+	opts := fsbinlog.Options{PrefixPath: prefix, Magic: schemaMagic, Fs: fs, MaxChunkSize: chunk, WriteCallDelay: &zero}
+	bl, _ := fsbinlog.NewFsBinlog(nil, opts)
+	eng := newEngine(0, fs)
+	done := make(chan error, 1)
+	go func() {
+		defer func() {
+			if r := recover(); r != nil {
+				done <- fmt.Errorf("panic: %v", r)
+			}
+		}()
+		done <- bl.Run(0, nil, nil, eng)
+	}()
+	select {
+	case <-eng.ready:
+	case err := <-done:
+		if err != nil {
+			ro.startErr = err.Error()
+		}
+		return ro
+	case <-time.After(60 * time.Second):
+		panic("binlog neither started nor failed")
+	}
+	ro.started = true
+	eng.mu.Lock()
+	off := eng.off
+	eng.mu.Unlock()
+	ro.startOff = off
+	for _, p := range payloads {
+		noff, err := bl.AppendASAP(off, frame(p))
+		if err != nil {
+			ro.appendErr = "Append: " + err.Error()
+			break
+		}
+		off = noff
+		ro.newOffs = append(ro.newOffs, off)
+	}
+	bl.RequestShutdown()
+	if err := <-done; err != nil && ro.appendErr == "" {
+		ro.appendErr = "write loop: " + err.Error()
+	}
+	ro.files = listFiles(fs)
+	return ro
 }
